@@ -2,7 +2,7 @@
     Statements only; proofs are in Gql/ProofsSched.v, Gql/ProofsErr.v. *)
 From Coq Require Import List String Bool Arith Permutation.
 From Thunder Require Import Lib.Json Gql.Types Gql.Value Gql.Query Gql.Ref Gql.Exec Gql.Check Gql.Envelope
-  Gql.ProofsSched Gql.ProofsErr.
+  Gql.ProofsSched Gql.ProofsErr Gql.ProofsRef Gql.ProofsMain.
 Import ListNotations.
 Open Scope string_scope.
 Open Scope list_scope.
@@ -11,14 +11,14 @@ Open Scope list_scope.
     under the initial units raises a failure, the completed run returns an error, one of those raised
     (first in schedule order); if none does, it returns data.
 
-    FULL STATEMENT, of which this is the part proved:
+    FULL STATEMENT of (i), of which this is the part proved:
       needed_failures S fuel q root <> [] ->
         exists f, In f (needed_failures S fuel q root) /\ run fixed S fuel sched q root = Some (RErr f')
         with f' = f up to the list indices of a failing batch unit's first destination
-      needed_failures S fuel q root = [] -> run ... = Some (ROk (fst (eval_ref S fuel q root)))
-    Missing: the failures the forest raises are exactly (up to that index rule) the needed failures of
-    eval_ref, i.e. the same lemma C01 lacks (forest = eval_ref).  The executable model is tested
-    against it on every run (Gql/Check.v: obs_matches_run / obs_matches_ref). *)
+    Missing for (i): the failures the forest raises are (up to that index rule) needed failures of
+    eval_ref, and the forest is finite also when resolvers fail; the lemma [units_compute_reference]
+    (C01) covers the failure-free case only, which gives (ii) below in full.  The executable model is
+    tested against the full statement on every run (Gql/Check.v: obs_matches_run / obs_matches_ref). *)
 Theorem failing_unit_fails_query_partial : forall Q S fuel rf st0 rs,
   Forall2 (P Q S fuel) (st_pending st0) rs -> st_err st0 = None ->
   NoDup (map fst (st_heap st0 ++ heaps rs)) ->
@@ -33,6 +33,18 @@ Proof.
   destruct (errs rs); [eexists; exact H | exact H].
 Qed.
 Print Assumptions failing_unit_fails_query_partial.
+
+(** (ii), in full: if no needed resolver fails (the reference evaluation raises nothing), every
+    completed run, under every schedule and every execution-mode assignment, returns the reference data. *)
+Theorem no_needed_failure_returns_reference : forall S fuel rf q root sched,
+  needed_failures S fuel q root = [] ->
+  NoDup (map fst (ent [] (fst (eval_ref S fuel q root)))) ->
+  jdepth (fst (eval_ref S fuel q root)) <= Datatypes.S rf ->
+  exists st0, init fixed S q root = inl st0 /\
+    (complete (run_sched fixed S fuel sched st0) = true ->
+     finish rf (run_sched fixed S fuel sched st0) = Some (ROk (fst (eval_ref S fuel q root)))).
+Proof. exact ProofsMain.execution_equals_reference. Qed.
+Print Assumptions no_needed_failure_returns_reference.
 
 (** errorRecorder: once a failure is recorded no later step replaces it. *)
 Theorem first_failure_is_kept : forall Q S fuel sched st e,
